@@ -377,6 +377,21 @@ Proof.
 Qed.
 
 (* ================= step shapes ================= *)
+Definition decide_state (s : state) (t : nat) (todo acc : list nat) (nb : nat) (r : decision)
+           (e' : nat -> entry) : state :=
+  mkS e' (queue s) (unfinished s) (cv_owner s) (cv_waiting s) (cv_notified s)
+      (match r with
+       | RWaiting => next_decide todo (acc ++ [t]) nb
+       | RPending => MPut t todo acc nb
+       | RSkipped | RNone => next_decide todo acc nb
+       end) (wp s) (clock s) (started s).
+
+(* the master is about to decide t: in a pass, or (variation that keeps the condition
+   variable between two passes) at the end of a pass, starting the next one at once *)
+Definition deciding (s : state) (t : nat) (todo acc : list nat) (nb : nat) : Prop :=
+  mp s = MDecide (t :: todo) acc nb
+  \/ (mp s = MCvRelLoop (t :: todo) /\ acc = [] /\ nb = length (t :: todo)).
+
 Inductive mtrans (c : cfg) (s : state) : state -> Prop :=
 | MT_start k : mp s = MStart k -> mtrans c s (set_mp (set_wp s k WBoot) (after_spawn c k))
 | MT_acq l : mp s = MCvAcq l -> cv_owner s = None ->
@@ -390,6 +405,9 @@ Inductive mtrans (c : cfg) (s : state) : state -> Prop :=
                      | RPending => MPut t todo acc nb
                      | RSkipped | RNone => next_decide todo acc nb
                      end) (wp s) (clock s) (started s))
+| MT_decide_alt t todo r e' :
+    mp s = MCvRelLoop (t :: todo) -> decide c (env s) t = (r, e') ->
+    mtrans c s (decide_state s t todo [] (length (t :: todo)) r e')
 | MT_put t todo acc nb : mp s = MPut t todo acc nb ->
     mtrans c s (mkS (env s) (queue s ++ [Some t]) (S (unfinished s)) (cv_owner s) (cv_waiting s)
                     (cv_notified s) (next_decide todo acc nb) (wp s) (clock s) (started s))
@@ -483,12 +501,23 @@ Proof.
   - inversion H; subst. now constructor.
 Qed.
 
+Lemma master_step_alt_trans c s s' : master_step_alt c s = Some s' -> mtrans c s s'.
+Proof.
+  unfold master_step_alt. intros H. destruct (mp s) eqn:M; try discriminate.
+  destruct acc as [|t todo]; [discriminate|].
+  unfold master_step in H. simpl in H.
+  destruct (decide c (env s) t) as [r e'] eqn:D. inversion H; subst.
+  destruct r; exact (MT_decide_alt c s t todo _ e' M D).
+Qed.
+
 Lemma step_trans c s tid now s' :
   step c s tid now = Some s' ->
   (tid = 0 /\ mtrans c s s') \/ (exists w, tid = S w /\ wtrans c s w s').
 Proof.
   unfold step. intros H. destruct tid as [|w].
-  - left. split; auto. destruct now; [|discriminate]. now apply master_step_trans.
+  - left. split; auto. destruct now as [|x [|y r]]; [|  |discriminate].
+    + now apply master_step_trans.
+    + now apply master_step_alt_trans.
   - right. exists w. split; auto.
     destruct (wp s w) eqn:W; destruct now; try discriminate;
       eapply worker_step_trans; eauto.
@@ -521,6 +550,13 @@ Proof.
   unfold next_decide, pass_end. destruct todo; [|simpl; auto].
   destruct acc; [simpl; tauto|]. destruct (Nat.eqb nb _); simpl; tauto.
 Qed.
+Lemma deciding_L c s t todo acc nb : deciding s t todo acc nb -> L c s = acc ++ t :: todo.
+Proof. unfold L. intros [->|(-> & -> & _)]; reflexivity. Qed.
+Lemma deciding_Fm s t todo acc nb : deciding s t todo acc nb -> Fm (mp s) = [].
+Proof. intros [->|(-> & _)]; reflexivity. Qed.
+Lemma deciding_pass_acc s t todo acc nb x :
+  deciding s t todo acc nb -> In x acc -> In x (pass_acc (mp s)).
+Proof. intros [->|(_ & -> & _)]; simpl; [auto | intros []]. Qed.
 Lemma In_Fw c wps x : In x (Fw c wps) <-> exists w, w < nworkers c /\ In x (held (wps w)).
 Proof. unfold Fw. apply in_flat_map_seq. Qed.
 Lemma In_F c s x :
@@ -816,14 +852,14 @@ Proof. intros (ord & H1 & H2 & H3 & H4 & _). exists ord; auto. Qed.
 
 (* the facts about the head of todo that all four outcomes of decide share *)
 Lemma decide_head_facts s t todo acc nb :
-  inv_core s -> mp s = MDecide (t :: todo) acc nb ->
+  inv_core s -> deciding s t todo acc nb ->
   L c s = acc ++ t :: todo /\ In t (L c s) /\ ~ In t (F c s) /\ ~ In t (acc ++ todo)
   /\ ~ pubs s t /\ ~ settled c s t
   /\ started s t = st0 t /\ payload_eq (env s t) (e0 t)
   /\ (est (env s t) = est (e0 t) \/ est (env s t) = Some WAITING).
 Proof.
   intros I Hmp.
-  assert (HL : L c s = acc ++ t :: todo) by (unfold L; now rewrite Hmp).
+  assert (HL : L c s = acc ++ t :: todo) by (now apply (deciding_L c) in Hmp).
   assert (tL : In t (L c s)) by (rewrite HL; apply in_app_iff; simpl; auto).
   pose proof (inv_nodup _ I) as Hnd. apply NoDup_app_iff in Hnd as (HdL & HdF & Hdis).
   assert (tnF : ~ In t (F c s)) by auto.
@@ -842,7 +878,7 @@ Proof using. unfold pubs. intros ->. reflexivity. Qed.
 (* one lemma for the four outcomes of decide on the head t of todo:
    W = t stays in L (WAITING), P = t goes in flight (PENDING), X = t is settled *)
 Lemma core_decide_gen s s' t todo acc nb :
-  wf_cfg c -> inv_core s -> mp s = MDecide (t :: todo) acc nb ->
+  wf_cfg c -> inv_core s -> deciding s t todo acc nb ->
   wp s' = wp s -> clock s' = clock s -> started s' = started s ->
   (forall x, x <> t -> env s' x = env s x) -> payload_eq (env s' t) (env s t) ->
   junk_free (env s') ->
@@ -863,7 +899,7 @@ Proof.
   pose proof (inv_nodup _ I) as HndLF. pose proof (inv_sub _ I ord Ho) as Hsub.
   assert (Hacc : forall x, In x acc -> est (env s' x) = Some WAITING).
   { intros x Hx. assert (x <> t) by (intros ->; apply tnat, in_app_iff; auto).
-    rewrite G1 by auto. apply (inv_acc _ I). now rewrite Hmp. }
+    rewrite G1 by auto. apply (inv_acc _ I). eapply deciding_pass_acc; eauto. }
   (* L ∪ F only shrinks; nothing but t leaves L; nothing leaves F *)
   assert (Hmono : forall x, In x (L c s' ++ F c s') -> In x (L c s ++ F c s)).
   { intros x. rewrite HL. destruct Mode as [(E1 & E2 & _)|[(E1 & E2 & _)|(E1 & E2 & _)]];
@@ -923,7 +959,8 @@ Proof.
     { apply final_at_iff in Fd as (st & Ed & Fin). split; intros Hin.
       - rewrite HL in Hin, Hsub.
         pose proof (sublist_earlier_in_acc _ _ _ _ _ Hsub Hnd Hin dlt) as Ha.
-        assert (W : est (env s d) = Some WAITING) by (apply (inv_acc _ I); now rewrite Hmp).
+        assert (W : est (env s d) = Some WAITING)
+          by (apply (inv_acc _ I); eapply deciding_pass_acc; eauto).
         rewrite W in Ed. inversion Ed; subst st. discriminate.
       - destruct (inv_flight _ I d Hin) as [P _]. rewrite P in Ed. inversion Ed; subst st.
         discriminate. }
@@ -1094,6 +1131,51 @@ Lemma L_mk_next_decide e q u co cw cn wps ck st todo acc nb :
   L c (mkS e q u co cw cn (next_decide todo acc nb) wps ck st) = acc ++ todo.
 Proof. now apply (L_next_decide c _ todo acc nb). Qed.
 
+(* how L and F change when the head of todo is decided *)
+Lemma decide_modes s t todo acc nb r e' :
+  deciding s t todo acc nb -> decide c (env s) t = (r, e') ->
+  let s' := decide_state s t todo acc nb r e' in
+  L c s = acc ++ t :: todo /\
+  ( (r = RWaiting /\ L c s' = L c s /\ F c s' = F c s /\ est (e' t) = Some WAITING)
+    \/ (r = RPending /\ L c s' = acc ++ todo /\ F c s' = t :: F c s /\ est (e' t) = Some PENDING)
+    \/ (r = RSkipped /\ L c s' = acc ++ todo /\ F c s' = F c s /\ est (e' t) = Some SKIPPED)
+    \/ (r = RNone /\ L c s' = acc ++ todo /\ F c s' = F c s /\ e' = env s
+        /\ est (env s t) = Some DONE) ).
+Proof.
+  intros H D s'. pose proof (decide_spec _ _ _ _ _ D) as S.
+  assert (HL : L c s = acc ++ t :: todo) by (now apply (deciding_L c) in H).
+  assert (HF : F c s = queued (queue s) ++ Fw c (wp s))
+    by (rewrite F_eq, (deciding_Fm _ _ _ _ _ H); reflexivity).
+  split; auto. subst s'. unfold decide_state. destruct r; simpl in S.
+  - left. rewrite L_mk_next_decide, HL, <- app_assoc.
+    rewrite F_eq. simpl. rewrite Fm_next_decide, HF. repeat split; auto. apply S.
+  - right; left. rewrite F_eq. simpl. rewrite HF. unfold L. simpl. repeat split; auto. apply S.
+  - right; right; left. rewrite L_mk_next_decide.
+    rewrite F_eq. simpl. rewrite Fm_next_decide, HF. repeat split; auto. apply S.
+  - right; right; right. rewrite L_mk_next_decide.
+    rewrite F_eq. simpl. rewrite Fm_next_decide, HF. destruct S as [-> S]. repeat split; auto.
+Qed.
+
+Lemma core_decide s t todo acc nb r e' :
+  wf_cfg c -> inv_core s -> deciding s t todo acc nb -> decide c (env s) t = (r, e') ->
+  inv_core (decide_state s t todo acc nb r e').
+Proof.
+  intros Hwf I H D.
+  destruct (decide_modes s t todo acc nb r e' H D) as [HL M].
+  eapply core_decide_gen with (t := t); eauto; try reflexivity.
+  - intros; simpl; eapply decide_other; eauto.
+  - simpl. eapply decide_payload; eauto.
+  - simpl. eapply decide_junk_free; eauto. apply (inv_junk _ I).
+  - destruct M as [(-> & E1 & E2 & E3)|[(-> & E1 & E2 & E3)|[(-> & E1 & E2 & E3)|(-> & E1 & E2 & -> & E3)]]].
+    + left. repeat split; auto. simpl. apply pass_acc_next_decide.
+    + right; left. split; [auto|]. split; [auto|]. split; [auto|]. split; [|simpl; auto].
+      intros d Hd Hne. eapply decide_pending_deps; eauto. apply (inv_junk _ I).
+    + right; right. split; [auto|]. split; [auto|]. split; [left; auto|].
+      simpl. apply pass_acc_next_decide.
+    + right; right. split; [auto|]. split; [auto|]. split; [right; auto|].
+      simpl. apply pass_acc_next_decide.
+Qed.
+
 Lemma core_mtrans s s' : wf_cfg c -> inv_core s -> inv_aux s -> mtrans c s s' -> inv_core s'.
 Proof.
   intros Hwf I A T. destruct T.
@@ -1113,26 +1195,9 @@ Proof.
     + rewrite !F_eq. simpl. now rewrite H.
     + tauto.
   - (* MDecide *)
-    pose proof (decide_spec _ _ _ _ _ H0) as S.
-    eapply core_decide_gen with (t := t); eauto; simpl.
-    + intros; eapply decide_other; eauto.
-    + eapply decide_payload; eauto.
-    + eapply decide_junk_free; eauto. apply (inv_junk _ I).
-    + assert (HL : L c s = acc ++ t :: todo) by (unfold L; now rewrite H).
-      assert (HF : F c s = queued (queue s) ++ Fw c (wp s)) by (rewrite F_eq, H; reflexivity).
-      destruct r; simpl in S.
-      * left. rewrite L_mk_next_decide, HL, <- app_assoc.
-        rewrite F_eq. simpl. rewrite Fm_next_decide, HF.
-        repeat split; auto; [apply S | apply pass_acc_next_decide].
-      * right; left. rewrite F_eq. simpl. rewrite HF. unfold L. simpl.
-        repeat split; auto; [apply S|].
-        intros d Hd Hne. eapply decide_pending_deps; eauto. apply (inv_junk _ I).
-      * right; right. rewrite L_mk_next_decide.
-        rewrite F_eq. simpl. rewrite Fm_next_decide, HF.
-        repeat split; auto; [left; apply S | apply pass_acc_next_decide].
-      * right; right. rewrite L_mk_next_decide.
-        rewrite F_eq. simpl. rewrite Fm_next_decide, HF. destruct S as [-> S].
-        split; [auto|split; [auto|split; [right; auto | apply pass_acc_next_decide]]].
+    apply (core_decide s t todo acc nb r e'); auto. now left.
+  - (* MCvRelLoop, variation: first decision of the next pass *)
+    apply core_decide; auto. right; auto.
   - (* MPut *)
     apply (core_frame s); auto; simpl.
     + rewrite L_mk_next_decide. unfold L. now rewrite H.
@@ -1252,6 +1317,10 @@ Proof using.
     + unfold cnt. simpl. destruct r; simpl; rewrite ?sent_next_decide; lia.
     + destruct r; simpl; try (now intros []); intros D; now apply drained_next_decide in D.
   - split; simpl; auto using (inv_wnone _ A).
+    + intros k. destruct r; try discriminate; intros E; now apply next_decide_not_mstart in E.
+    + unfold cnt. simpl. destruct r; simpl; rewrite ?sent_next_decide; lia.
+    + destruct r; simpl; try (now intros []); intros D; now apply drained_next_decide in D.
+  - split; simpl; auto using (inv_wnone _ A).
     + intros k E; now apply next_decide_not_mstart in E.
     + unfold cnt. simpl. rewrite queued_app, app_length, sent_next_decide. simpl. lia.
     + intros D; now apply drained_next_decide in D.
@@ -1319,15 +1388,6 @@ Proof.
 Qed.
 
 (* ---------- a coarser classification of the steps, for further invariants ---------- *)
-Definition decide_state (s : state) (t : nat) (todo acc : list nat) (nb : nat) (r : decision)
-           (e' : nat -> entry) : state :=
-  mkS e' (queue s) (unfinished s) (cv_owner s) (cv_waiting s) (cv_notified s)
-      (match r with
-       | RWaiting => next_decide todo (acc ++ [t]) nb
-       | RPending => MPut t todo acc nb
-       | RSkipped | RNone => next_decide todo acc nb
-       end) (wp s) (clock s) (started s).
-
 Inductive step_kind (s s' : state) : Prop :=
 | SK_frame :
     env s' = env s -> started s' = started s -> clock s' = clock s -> L c s' = L c s ->
@@ -1342,7 +1402,7 @@ Inductive step_kind (s s' : state) : Prop :=
     L c s' = L c s -> Permutation (F c s) (F c s') -> In t (F c s) ->
     step_kind s s'
 | SK_decide t todo acc nb r e' :
-    mp s = MDecide (t :: todo) acc nb -> decide c (env s) t = (r, e') ->
+    deciding s t todo acc nb -> decide c (env s) t = (r, e') ->
     s' = decide_state s t todo acc nb r e' ->
     step_kind s s'
 | SK_start w t t0 t1 :
@@ -1360,30 +1420,6 @@ Inductive step_kind (s s' : state) : Prop :=
     L c s' = L c s -> Permutation (F c s) (t :: F c s') ->
     step_kind s s'.
 
-(* how L and F change when the head of todo is decided *)
-Lemma decide_modes s t todo acc nb r e' :
-  mp s = MDecide (t :: todo) acc nb -> decide c (env s) t = (r, e') ->
-  let s' := decide_state s t todo acc nb r e' in
-  L c s = acc ++ t :: todo /\
-  ( (r = RWaiting /\ L c s' = L c s /\ F c s' = F c s /\ est (e' t) = Some WAITING)
-    \/ (r = RPending /\ L c s' = acc ++ todo /\ F c s' = t :: F c s /\ est (e' t) = Some PENDING)
-    \/ (r = RSkipped /\ L c s' = acc ++ todo /\ F c s' = F c s /\ est (e' t) = Some SKIPPED)
-    \/ (r = RNone /\ L c s' = acc ++ todo /\ F c s' = F c s /\ e' = env s
-        /\ est (env s t) = Some DONE) ).
-Proof.
-  intros H D s'. pose proof (decide_spec _ _ _ _ _ D) as S.
-  assert (HL : L c s = acc ++ t :: todo) by (unfold L; now rewrite H).
-  assert (HF : F c s = queued (queue s) ++ Fw c (wp s)) by (rewrite F_eq, H; reflexivity).
-  split; auto. subst s'. unfold decide_state. destruct r; simpl in S.
-  - left. rewrite L_mk_next_decide, HL, <- app_assoc.
-    rewrite F_eq. simpl. rewrite Fm_next_decide, HF. repeat split; auto. apply S.
-  - right; left. rewrite F_eq. simpl. rewrite HF. unfold L. simpl. repeat split; auto. apply S.
-  - right; right; left. rewrite L_mk_next_decide.
-    rewrite F_eq. simpl. rewrite Fm_next_decide, HF. repeat split; auto. apply S.
-  - right; right; right. rewrite L_mk_next_decide.
-    rewrite F_eq. simpl. rewrite Fm_next_decide, HF. destruct S as [-> S]. repeat split; auto.
-Qed.
-
 Lemma mtrans_kind s s' : wf_cfg c -> inv_aux s -> mtrans c s s' -> step_kind s s'.
 Proof.
   intros Hwf A T. destruct T;
@@ -1395,7 +1431,8 @@ Proof.
     + rewrite !F_eq. simpl. rewrite H, Fm_after_spawn, Fw_upd_same; auto. now rewrite Hnone.
     + intros w Hw. simpl. destruct (upd_eq_cases (wp s) k WBoot w) as [[-> ->]|[_ ->]]; auto.
       right. rewrite Hnone; simpl; auto.
-  - eapply SK_decide; eauto.
+  - apply (SK_decide s _ t todo acc nb r e'); [now left | auto | reflexivity].
+  - apply (SK_decide s _ t todo [] (length (t :: todo)) r e'); [right; auto | auto | reflexivity].
   - apply SK_frame; auto; simpl.
     + rewrite L_mk_next_decide. unfold L. now rewrite H.
     + rewrite !F_eq. simpl. rewrite H, Fm_next_decide, queued_app. simpl.
